@@ -53,6 +53,15 @@ RECURSIVE Seqs(_)
 Seqs(n) == IF n = 1 THEN {<<k>> : k \in FirstCmds}
            ELSE LET S == Seqs(n - 1) IN S \cup {Append(s, k) : s \in {t \in S : Len(t) = n - 1}, k \in Commands}
 
+\* family "closes": longer sequences over few commands, for what follows a closepath (a command other than a moveto after Z
+\* starts a new sub-path at the same initial point, which a later Z closes again - SVG 1.1, 8.3.3)
+CloseCmds == {Cmd("L", FALSE, <<<<Pt(6, 3)>>>>), Cmd("L", TRUE, <<<<Pt(-3, 3)>>>>), Cmd("H", TRUE, <<<<3>>>>), Cmd("Z", FALSE, <<>>),
+              Cmd("M", FALSE, <<<<Pt(3, 6)>>>>)}
+RECURSIVE CloseSeqs(_)
+CloseSeqs(n) == IF n = 1 THEN {<<Cmd("M", FALSE, <<<<Pt(3, 0)>>>>)>>}
+                ELSE LET S == CloseSeqs(n - 1) IN S \cup {Append(s, k) : s \in {t \in S : Len(t) = n - 1}, k \in CloseCmds}
+PathLike == Family \in {"path", "closes"}
+
 Abs(rel, base, p) == IF rel THEN Add(base, p) ELSE p
 
 \* ---- one command, all its argument groups; st = [cur, ctl, start, last, ops]
@@ -177,11 +186,12 @@ EndBuild == /\ phase = "build" /\ Len(cmds) = MaxCmds /\ phase' = "run" /\ UNCHA
 
 Init == /\ pc = 1 /\ cur = Pt(0, 0) /\ ctl = Pt(0, 0) /\ start = Pt(0, 0) /\ last = "" /\ ops = <<>> /\ phase = "run"
         /\ CASE Family = "path" -> cmds \in Seqs(MaxCmds)
+             [] Family = "closes" -> cmds \in CloseSeqs(MaxCmds)
              [] Family = "arc" -> cmds \in {<<a>> : a \in ArcScn}
              [] Family = "viewport" -> cmds \in {<<s>> : s \in VpScn}
              [] Family = "shape" -> cmds \in {<<s>> : s \in ShapeScn}
 
-Step(letter) == /\ phase = "run" /\ Family = "path" /\ pc <= Len(cmds) /\ cmds[pc].c = letter
+Step(letter) == /\ phase = "run" /\ PathLike /\ pc <= Len(cmds) /\ cmds[pc].c = letter
                 /\ LET st == RunCmd([cur |-> cur, ctl |-> ctl, start |-> start, last |-> last, ops |-> ops], cmds[pc]) IN
                    /\ cur' = st.cur /\ ctl' = st.ctl /\ start' = st.start /\ last' = st.last /\ ops' = st.ops
                 /\ pc' = pc + 1 /\ UNCHANGED <<cmds, phase>>
@@ -194,19 +204,19 @@ SmoothCurveTo == Step("S")
 QuadTo == Step("Q")
 SmoothQuadTo == Step("T")
 ClosePath == Step("Z")
-Finish == /\ phase = "run" /\ (Family # "path" \/ pc > Len(cmds)) /\ phase' = "done"
+Finish == /\ phase = "run" /\ (~PathLike \/ pc > Len(cmds)) /\ phase' = "done"
           /\ UNCHANGED <<cmds, pc, cur, ctl, start, last, ops>>
 Next == AddCmd \/ EndBuild \/ MoveTo \/ LineTo \/ HorizontalTo \/ VerticalTo \/ CurveTo \/ SmoothCurveTo \/ QuadTo \/ SmoothQuadTo \/ ClosePath \/ Finish
 Spec == Init /\ [][Next]_vars
 
 \* the current point is always the end point of the last emitted operation (or the sub-path start after Z)
-CurIsLastEnd == (Family = "path" /\ ops # <<>>) =>
+CurIsLastEnd == (PathLike /\ ops # <<>>) =>
    LET o == ops[Len(ops)] IN IF o.op = "Z" THEN cur = start ELSE cur = o.p[Len(o.p)]
 \* every sub-path begins with a moveto: the first operation is M
-StartsWithMove == (Family = "path" /\ ops # <<>>) => ops[1].op = "M"
+StartsWithMove == (PathLike /\ ops # <<>>) => ops[1].op = "M"
 
 Emit == phase = "done" =>
-  PrintT(ToJson(CASE Family = "path" -> [family |-> "path", cmds |-> cmds, ops |-> ops]
+  PrintT(ToJson(CASE PathLike -> [family |-> "path", cmds |-> cmds, ops |-> ops]
                   [] Family = "arc" -> [family |-> "arc", arc |-> cmds[1], from |-> ArcStart(cmds[1]), to |-> ArcEnd(cmds[1]), used |-> UsedR(cmds[1])]
                   [] Family = "viewport" -> [family |-> "viewport", vp |-> cmds[1], want |-> VpTransform(cmds[1])]
                   [] Family = "shape" -> [family |-> "shape", shape |-> cmds[1], outline |-> ShapeOutline(cmds[1])]))
